@@ -368,6 +368,48 @@ def typeahead_quit(col, binpath, rng, tag, scratch):
         sess.close()
 
 
+def crowd_quit(col, binpath, rng, tag, scratch, n_air):
+    """Hundreds (thorough: thousands) of aircraft at once, keys and resizes while they arrive: every
+    turn of the client's loop draws all of them - it has to stay an interactive program (a tab
+    switch shows up, quit is honoured within the usual 20 s) however long the list is."""
+    lines = []
+    for k in range(n_air):
+        addr = 0x100000 + k * 7
+        la, lo = enc.destination(52.0, 4.0, rng.uniform(0, 360), rng.uniform(1, 400))
+        lines.append(enc.line(enc.long_frame(17, 5, addr, enc.me_ident(4, 0, "M%05d" % k))))
+        lines.append(enc.line(enc.long_frame(17, 5, addr, enc.me_airpos(11, 1000 + 25 * (k % 1500), la, lo, False))))
+        lines.append(enc.line(enc.long_frame(17, 5, addr, enc.me_airpos(11, 1000 + 25 * (k % 1500), la, lo, True))))
+    sess = session.RadarSession(binpath, [("send", b"".join(lines)), ("mark", "feed_done"), ("sleep", 600)], opts=["--filter-time", "100000"] + (["--touchscreen"] if idx_of(tag) % 2 else []), rows=50, cols=160, scratch=scratch)
+    inp = {"scenario": "crowd", "aircraft": n_air, "tag": tag}
+    try:
+        sess.wait_connected()
+        col.count("sessions")
+        col.cls("session|crowd")
+        t_end = time.monotonic() + 60 + n_air / 8.0
+        k = 0
+        while time.monotonic() < t_end and sess.tab_title_count() != n_air:
+            sess.p.pump(0.5)
+            k += 1
+            if k % 6 == 0:
+                sess.key(rng.choice(["F1", "F2", "F3", "F4", "Down", "Up", "+", "-", "Enter"]))
+                col.count("events")
+            if k % 25 == 0:
+                sess.p.resize(*rng.choice([(50, 160), (24, 80), (60, 200)]))
+                col.count("events")
+            if not sess.p.alive():
+                loc = sess.panic_location()
+                col.add("C17", f"C17|terminated_before_quit|{loc or ('status ' + str(sess.p.p.returncode))}", f"radar exited with status {sess.p.p.returncode} (panic at {loc}) while {n_air} aircraft were arriving; no quit was requested", inp)
+                return
+        if sess.tab_title_count() != n_air:
+            raise Inconclusive(f"only {sess.tab_title_count()} of {n_air} aircraft after {60 + n_air / 8.0:.0f} s")
+        how = rng.choice(["q", "CtrlC"])
+        sess.key(how)
+        check_exit(col, sess, f"'{how}' with {n_air} aircraft tracked", "crowd", inp)
+        col.count("quits_checked")
+    finally:
+        sess.close()
+
+
 def quit_on_reconnect_screen(col, binpath, rng, tag, scratch):
     """--retry-tcp: the feed disappears and stays away; operator events and quit on the waiting screen."""
     how = rng.choice(["q", "CtrlC"])
@@ -562,6 +604,8 @@ def main(a, lcol, col, run_all, scratch, START):
         jobs.append((f"reconnect#{i}", lambda rng, i=i: quit_on_reconnect_screen(lcol, a.bin, rng, f"reconnect#{i}", scratch)))
     for i in range(12 if thorough else 3):
         jobs.append((f"reconnected#{i}", lambda rng, i=i: quit_after_reconnect(lcol, a.bin, rng, f"reconnected#{i}", scratch)))
+    for i, n_air in enumerate([2500, 1200, 600] if thorough else [500]):
+        jobs.insert(0, (f"crowd#{i}", lambda rng, i=i, n_air=n_air: crowd_quit(lcol, a.bin, rng, f"crowd#{i}", scratch, n_air)))
     for i in range(30 if thorough else 6):
         jobs.append((f"typeahead#{i}", lambda rng, i=i: typeahead_quit(lcol, a.bin, rng, f"typeahead#{i}", scratch)))
     for i in range(32 if thorough else 8):
